@@ -127,3 +127,11 @@ pub struct HyraxProof<G: AffineRepr> {
     /// Auxiliary random scalar
     pub z_b: G::ScalarField,
 }
+
+#[cfg(any(kani, arkworks_rs_poly_commit_verif))]
+impl<F: PrimeField> HyraxCommitmentState<F> {
+    /// Verification hook: (row randomness, rows of the coefficient matrix)
+    pub fn verif_parts(&self) -> (&Vec<F>, Vec<Vec<F>>) {
+        (&self.randomness, self.mat.rows())
+    }
+}
